@@ -27,29 +27,17 @@ def expected_from_recorder(rec, tbl, union):
 
 
 def align_closed(exp, got):
-    """exp: ground-truth records in order of completion, some with exit == 'closed'; got: [(qualname, no_return_type)] of the
-    logged traces.  A closed call is kept (as a call that raised) if the next logged trace is its, and dropped otherwise."""
-    if not any(e["exit"] == "closed" for e in exp):
-        return exp
-    keep, i = [], 0
-    for e in exp:
-        if e["exit"] == "closed":
-            if i < len(got) and got[i][0] == e["qualname"] and got[i][1]:
-                keep.append(dict(e, ret=None))
-                i += 1
-            continue
-        keep.append(e)
-        i += 1
-    return keep
+    """exp: ground-truth records in order of completion, some with exit == 'closed' (a generator the workload dropped while it was
+    suspended: CPython closes it, the GeneratorExit ends the call).  Such a call finished by raising: it is expected in the log
+    like any call that raised - once, without a return type, with the yield type of what it had yielded (fix 4a9731f)."""
+    return [dict(e, ret=None) if e["exit"] == "closed" else e for e in exp]
 
 
 def compare_with_truth(chk, logger, expected, tbl, unresolved, case):
     """the property, on the implementation: one faithful trace per completed call, in order of completion"""
     exp = [e for e in expected if e["qualname"] not in unresolved]
     got = logger.traces
-    # a generator that was dropped while suspended did not return; CPython closes it, and depending on where it was parked its
-    # frame either ends by the GeneratorExit (then the tracer logs it like any call that raised) or stays at the yield (nothing
-    # is logged).  Both are faithful; such a call is matched if it was logged and skipped if it was not.
+    # a generator that was dropped while suspended did not return; CPython closes it: a call that ended by an exception
     exp = align_closed(exp, [(t.func.__code__.co_qualname, t.return_type is None) for t in got])
     if len(got) != len(exp):
         chk.fail("count", dict(case, detail="%d traces logged, %d calls of resolvable functions completed" % (len(got), len(exp)),
@@ -69,7 +57,11 @@ def compare_with_truth(chk, logger, expected, tbl, unresolved, case):
             if ct(t.yield_type) != e["yield"]:
                 bad.append("yield type %r, yielded values had %r" % (ct(t.yield_type), e["yield"]))
         for b in bad:
-            chk.fail(b.split(",")[0].split(" ")[0], dict(case, index=i, qualname=e["qualname"], detail=b))
+            chk.fail(b.split(",")[0].split(" ")[0], dict(case, index=i, qualname=e["qualname"], detail=b,
+                                                         logged_positions=[j for j, x in enumerate(got) if x.func.__code__.co_qualname == e["qualname"]],
+                                                         completed_positions=[(j, x["exit"]) for j, x in enumerate(exp) if x["qualname"] == e["qualname"]],
+                                                         logged_around=[x.func.__code__.co_qualname for x in got[max(0, i - 3):i + 6]],
+                                                         completed_around=["%s (%s)" % (x["qualname"], x["exit"]) for x in exp[max(0, i - 3):i + 6]]))
             return
 
 
@@ -106,11 +98,8 @@ def run(pid, tier, seed):
                 chk.rel("corr.C02.stream_wellformed", False, dict(case, detail=er.malformed[:3]))
             else:
                 chk.rel("corr.C02.stream_wellformed", True)
-            abandoned = any(st[0] == "gen_abandon" for st in steps)
-            if tracer.traces and not abandoned:
-                # (a generator dropped while suspended is closed at its yield and never completes: its entry legitimately
-                #  stays; the number of entries left is still compared with the model's below)
-                chk.fail("residue", dict(case, detail="%d per-call entries left in the tracer" % len(tracer.traces)))
+            if tracer.traces or getattr(tracer, "thrown_into", None):
+                chk.fail("residue", dict(case, detail="%d per-call entries left in the tracer" % (len(tracer.traces) + len(getattr(tracer, "thrown_into", ())))))
             unresolved = {c.co_qualname for c in er.codes if tracerun.resolved(tracer, c) is None}
             for q in unresolved:
                 chk.count("unresolved." + q)
